@@ -26,3 +26,20 @@ func zzGrpcDialContext(ctx context.Context, target string, opts ...grpc.DialOpti
 	}
 	return cc, err
 }
+
+// zzGrpcNewClient stands for grpc.NewClient (the lazy successor of grpc.DialContext) in package proxy.
+func zzGrpcNewClient(target string, opts ...grpc.DialOption) (*grpc.ClientConn, error) {
+	if f := ZZGrpcDialOptions; f != nil {
+		opts = append(append([]grpc.DialOption(nil), opts...), f()...)
+	}
+	cc, err := grpc.NewClient(target, opts...)
+	if f := ZZGrpcOnDial; f != nil {
+		f(target, cc, err)
+	}
+	return cc, err
+}
+
+// zzGrpcDial stands for grpc.Dial in package proxy.
+func zzGrpcDial(target string, opts ...grpc.DialOption) (*grpc.ClientConn, error) {
+	return zzGrpcDialContext(context.Background(), target, opts...)
+}
